@@ -42,10 +42,19 @@ func writeAndReplay(dir string, spec *checkSpec, v *violationRec, overlay map[st
 	// syscall redirection for native builds: rewrite selectors in the target
 	// package's own files when the harness defines vk_* models
 	for virt, content := range nativeSyscallRewrites(spec, overlay) {
-		real := filepath.Join(dir, "overlay", fmt.Sprintf("%d_%s", i, filepath.Base(virt)))
+		real := filepath.Join(dir, "overlay", fmt.Sprintf("r%d_%s", i, filepath.Base(virt)))
 		i++
 		os.WriteFile(real, content, 0o644)
 		repl[virt] = real
+	}
+	// the repository's own test files are left out of the replay build (their
+	// init functions start engines on real sockets)
+	if ents, err := os.ReadDir(filepath.Join(repoDir, spec.Dir)); err == nil {
+		for _, e := range ents {
+			if strings.HasSuffix(e.Name(), "_test.go") {
+				repl[filepath.Join(repoDir, spec.Dir, e.Name())] = ""
+			}
+		}
 	}
 	pname, _ := packageNameOf(filepath.Join(repoDir, spec.Dir))
 	test := fmt.Sprintf(`package %s
@@ -82,7 +91,11 @@ func TestVerifReplay(t *testing.T) {
 }
 
 func runReplay(dir string) (status, output string) {
-	ctx, cancel := context.WithTimeout(context.Background(), 180*time.Second)
+	to := 180 * time.Second
+	if strings.Contains(filepath.Base(dir), "_hang_") {
+		to = 30 * time.Second
+	}
+	ctx, cancel := context.WithTimeout(context.Background(), to)
 	defer cancel()
 	cmd := exec.CommandContext(ctx, "/bin/sh", filepath.Join(dir, "replay.sh"))
 	cmd.Env = os.Environ()
